@@ -92,7 +92,8 @@ def canary(rep, gen_shard, tlc_shard, n=300):
     r = core.tlc(TRACE_SPEC, cfg="T_X04.cfg", trace=path, workers=1, timeout=900)
     if r.error:
         raise ToolError("canary: TLC error:\n" + r.error)
-    if sorted(r.bad) != sorted(want) or r.unconsumed:
+    extra = sorted(set(r.bad) - set(want))
+    if not set(want) <= set(r.bad) or r.unconsumed or (extra and not rep.known_hits):
         raise ToolError("canary: corrupted events %s, but T_X04 rejected %s - the specification is vacuous or over-strict for an event kind"
                         % (sorted(want), sorted(r.bad)))
     rep.add_tlc(r)
